@@ -113,6 +113,9 @@ func isErrorValue(v ssa.Value, view *View, b *ssa.BasicBlock, seen map[ssa.Value
 			if sc.Pkg != nil && (sc.Pkg.Pkg.Path() == "fmt" && sc.Name() == "Errorf" || sc.Pkg.Pkg.Path() == "errors" && sc.Name() == "New") {
 				return true
 			}
+			if view.P.alwaysErrors(sc) {
+				return true
+			}
 		}
 	case *ssa.Phi:
 		for _, e := range x.Edges {
@@ -127,6 +130,51 @@ func isErrorValue(v ssa.Value, view *View, b *ssa.BasicBlock, seen map[ssa.Value
 		return isErrorValue(x.X, view, b, seen)
 	}
 	return false
+}
+
+// alwaysErrors: fn is a first-party helper with a single error result whose every
+// return hands back a definitely non-nil error (an error arm moved into a helper).
+func (p *Program) alwaysErrors(fn *ssa.Function) bool {
+	if p.alwaysErr == nil {
+		p.alwaysErr = map[*ssa.Function]int{}
+	}
+	switch p.alwaysErr[fn] {
+	case 1:
+		return true
+	case 2, 3:
+		return false // 3: in progress (recursion) — not assumed
+	}
+	p.alwaysErr[fn] = 3
+	ok := false
+	defer func() {
+		if ok {
+			p.alwaysErr[fn] = 1
+		} else {
+			p.alwaysErr[fn] = 2
+		}
+	}()
+	if !p.isFirstParty(fn) || len(fn.Blocks) == 0 || fn.Signature.Results().Len() != 1 {
+		return false
+	}
+	if rt := fn.Signature.Results().At(0).Type(); !isErrorType(rt) && !types.Implements(rt, types.Universe.Lookup("error").Type().Underlying().(*types.Interface)) {
+		return false
+	}
+	view := p.View(fn)
+	n := 0
+	for _, b := range view.Blocks() {
+		for _, in := range view.Instrs(b) {
+			r, isRet := in.(*ssa.Return)
+			if !isRet {
+				continue
+			}
+			n++
+			if len(r.Results) != 1 || !isErrorValue(r.Results[0], view, b, map[ssa.Value]bool{}) {
+				return false
+			}
+		}
+	}
+	ok = n > 0
+	return ok
 }
 
 func init() {
